@@ -14,12 +14,12 @@ for k in $(seq 1 $n); do
   sub=()
   for i in "${!ids[@]}"; do if [ $((i % n + 1)) -eq $k ]; then sub+=("${ids[$i]}"); fi; done
   if [ "$kind" = neutral ]; then
-    ( VP_REPO=/tmp/lanes/l$k VP_LANE=-l$k python3 neutraltool.py check "${sub[@]}" > .cache/par_$kind_$k.txt 2>&1 ) &
+    ( VP_REPO=/tmp/lanes/l$k VP_LANE=-l$k python3 neutraltool.py check "${sub[@]}" > .cache/par_$k.txt 2>&1 ) &
   else
-    ( VP_REPO=/tmp/lanes/l$k VP_LANE=-l$k python3 seedtool.py detect "${sub[@]}" > .cache/par_$kind_$k.txt 2>&1 ) &
+    ( VP_REPO=/tmp/lanes/l$k VP_LANE=-l$k python3 seedtool.py detect "${sub[@]}" $EXTRA > .cache/par_$k.txt 2>&1 ) &
   fi
 done
 wait
-cat .cache/par_$kind_*.txt | grep -v "^neutral changes" | sort
+cat .cache/par_[0-9].txt | grep -v "^neutral changes" | sort
 for k in $(seq 1 $n); do git -C /repo worktree remove --force /tmp/lanes/l$k; done
 rm -rf /tmp/lanes
